@@ -150,6 +150,18 @@ func verifHookDetect() {
 	}
 }
 
+// sixth hook: in refreshSince in front of the balancer lock (operation `donepark`)
+var verifRefreshArmed int32
+var verifRefreshParked = make(chan chan struct{}, 1)
+
+func verifHookRefreshSince() {
+	if atomic.CompareAndSwapInt32(&verifRefreshArmed, 1, 0) {
+		rel := make(chan struct{})
+		verifRefreshParked <- rel
+		<-rel
+	}
+}
+
 func verifHookBind() {
 	if atomic.CompareAndSwapInt32(&verifBindArmed, 1, 0) {
 		rel := make(chan struct{})
@@ -744,6 +756,8 @@ func (h *vPool) exec(line string) string {
 		res = h.doPick2(a)
 	case "done2":
 		res = h.doDone2(a)
+	case "donepark":
+		res = h.doDonePark(a)
 	case "doneswap":
 		res = h.doDoneSwap(a)
 	case "doneccs":
@@ -1296,6 +1310,84 @@ func (h *vPool) doDoneCcs(a map[string]string) string {
 	return r2
 }
 
+// doDonePark: `pool donepark a=<id> b=<id> c=<id>`: call a ends with a client-side deadline error; if the detector decides
+// to refresh, the completion is stopped in refreshSince before it takes the balancer lock. Meanwhile call b ends the same
+// way (and may refresh the channel), the replacement - if exactly one refresh is in flight then - reports READY and takes over, and call c
+// ends the same way (counted on the fresh connection). Then a's completion continues with its old decision.
+func (h *vPool) doDonePark(a map[string]string) string {
+	if len(h.held) > 0 || !verifRefreshHookInstalled {
+		return "bad-op"
+	}
+	ida, _ := strconv.Atoi(a["a"])
+	idb, _ := strconv.Atoi(a["b"])
+	idc, _ := strconv.Atoi(a["c"])
+	ca, oka := h.calls[ida]
+	cb, okb := h.calls[idb]
+	cc, okc := h.calls[idc]
+	if !oka || !okb || !okc || ida == idb || ida == idc || idb == idc {
+		return "bad-op"
+	}
+	for _, c := range []*vCall{ca, cb, cc} {
+		delete(h.calls, c.id)
+		if c.reply != nil {
+			c.reply.Key, c.reply.Keys = "", nil
+		}
+	}
+	de := func(c *vCall) string {
+		return guarded(func() string {
+			c.done(balancer.DoneInfo{Err: status.Error(codes.DeadlineExceeded, context.DeadlineExceeded.Error()), BytesSent: true})
+			return "ok"
+		})
+	}
+	atomic.StoreInt32(&verifRefreshArmed, 1)
+	doneA := make(chan string, 1)
+	go func() { doneA <- de(ca) }()
+	var rel chan struct{}
+	first := ""
+	select {
+	case rel = <-verifRefreshParked:
+	case first = <-doneA: // no decision to refresh: the completion ran through
+	case <-time.After(3 * time.Second):
+		return "HANG"
+	}
+	atomic.StoreInt32(&verifRefreshArmed, 0)
+	out := "ok"
+	if r := de(cb); r != "ok" {
+		out = r
+	}
+	var fresh balancer.SubConn
+	h.gb.mu.Lock()
+	if len(h.gb.refreshingScRefs) == 1 { // exactly one refresh in flight: its replacement becomes READY
+		for sc := range h.gb.refreshingScRefs {
+			fresh = sc
+		}
+	}
+	h.gb.mu.Unlock()
+	if fresh != nil {
+		if r := guarded(func() string {
+			h.b.UpdateSubConnState(fresh, balancer.SubConnState{ConnectivityState: connectivity.Ready})
+			return "ok"
+		}); r != "ok" {
+			out = r
+		}
+	}
+	if r := de(cc); r != "ok" {
+		out = r
+	}
+	if rel != nil {
+		close(rel)
+		select {
+		case first = <-doneA:
+		case <-time.After(3 * time.Second):
+			return "HANG"
+		}
+	}
+	if first != "ok" {
+		return first
+	}
+	return out
+}
+
 // doDone2 completes two calls with a client-side deadline error from two goroutines while gb.mu is held by the
 // harness: whatever both do before they need the balancer lock has happened for both when it is released.
 func (h *vPool) doDone2(a map[string]string) string {
@@ -1610,6 +1702,13 @@ func (g *vGen) cfgLine() string {
 		g.ums = ums
 		g.scenarioRefreshRace()
 	}
+	if g.profile == "refresh" && g.script == nil && r.Intn(3) == 0 && cfg == "given" && verifRefreshHookInstalled {
+		// a completion's decision to refresh waits for the balancer lock through a refresh, the swap and a counted call
+		min, max, wm, rr = 1, 1+r.Intn(2), 50, 0
+		uc, ums = 1+r.Intn(2), 1+r.Intn(2)
+		g.ums = ums
+		g.scenarioStaleDecision(uc)
+	}
 	if (g.profile == "rr" || g.profile == "refresh") && g.script == nil && r.Intn(4) == 0 && cfg == "given" {
 		// a round-robin BIND call waits for its channel; a response arrives on that channel meanwhile
 		min, max, wm, rr, fb = 2, 2, 50, 1, 0
@@ -1692,6 +1791,42 @@ func (g *vGen) scenarioLoadAfterRefresh() {
 			add(done(&ids[i], "other"))
 		}
 	}
+}
+
+// scenarioStaleDecision: uc+1 calls on the only READY channel run past their deadlines; uc-1 of them complete and are
+// counted; a fresh call starts; then (donepark) the next completion decides to refresh and is stopped before the
+// balancer lock, the last old call completes and refreshes the channel, the replacement takes over, the fresh call
+// completes and is counted on it - and the stopped completion continues: its decision is stale, a second refresh
+// right after the swap would start inside the new window.
+func (g *vGen) scenarioStaleDecision(uc int) {
+	h := g.h
+	add := func(f func() string) { g.script = append(g.script, f) }
+	cur := func() int { return len(h.cc.pubs) - 1 }
+	call := func() int { g.nextCall++; return g.nextCall }
+	plain := func(id *int) func() string {
+		return func() string {
+			if cur() < 0 {
+				return ""
+			}
+			*id = call()
+			return fmt.Sprintf("pool pick call=%d picker=%d m=plain ctx=gcp dl=%d req=/", *id, cur(), atomic.LoadInt64(&verifClock))
+		}
+	}
+	old := make([]int, uc+1)
+	var fresh int
+	add(func() string { return "pool ccs addrs=1" })
+	add(func() string { return "pool scs sc=0 st=READY" })
+	for i := range old {
+		add(plain(&old[i]))
+	}
+	add(func() string { return fmt.Sprintf("pool adv ns=%d", int64(g.ums)*1000000+1) })
+	for i := 0; i < uc-1; i++ {
+		i := i
+		add(func() string { return fmt.Sprintf("pool done call=%d err=declient reply=/", old[i]) })
+	}
+	add(plain(&fresh))
+	add(func() string { return fmt.Sprintf("pool donepark a=%d b=%d c=%d", old[uc-1], old[uc], fresh) })
+	add(func() string { return "pool adv ns=1000" })
 }
 
 // scenarioRRWaitDetector: BIND calls are spread round-robin over two channels; the first channel leaves READY and the
